@@ -28,7 +28,10 @@ RULE = ('noise-free images I(x,y)=f(elliptical radius), f in {Sersic n 0.7-4, Ga
         'fit_image from a perturbed geometry (centre +-1.5 px, eps +-0.1, PA +-20 deg, sma0 5-15) with geometric '
         'step 0.1-0.3 or linear step 1-3 px, minsma/maxsma, integrmode bilinear/mean/median/nearest_neighbor, '
         'fix_* flags (via the call or the geometry object, pinned at truth or at the perturbed start); '
-        'class truth_start = start at the true geometry (an empty list is a violation there); '
+        'class fix_noniter = fix_* flags (single/pairs, via call or geometry) with maxrit below sma0 / between sma0 '
+        'and maxsma / maxsma beyond the frame so that the outward pass ends in non-iterative mode (stop codes 4, 5); '
+        'class controls = random sclip/nclip, fflag, maxgerr, conver, minit/maxit, maxrit, far maxsma (structural '
+        'monitors only); class truth_start = start at the true geometry (an empty list is a violation there); '
         'class single = Ellipse.fit_isophote at one sma; class sample = EllipseSample at the true geometry; '
         'class polar = EllipseGeometry.to_polar/radius on random + degenerate points (centre, axes, integer pixels). '
         'non-trivial = fit with >=5 isophotes judged against truth or fixed values / >=3 converged single fits / '
@@ -88,8 +91,8 @@ USABLE_MIN = 0.70
 
 def plan(tier):
     if tier == 'thorough':
-        return dict(shards=16, cases=18 * 20, timeout=3000, budget_s=840)
-    return dict(shards=8, cases=36, timeout=900, budget_s=75)
+        return dict(shards=16, cases=20 * 18, timeout=3000, budget_s=840)
+    return dict(shards=8, cases=40, timeout=900, budget_s=75)
 
 
 # ================================================================================================
@@ -201,7 +204,7 @@ def _recovery(case, spec, isos, mech, m):
         tol = max(3.0 * float(iso.int_err or 0.0), INT_REL * ft)
         items['intens'].append((abs(iso.intens - ft) / tol, dict(d, obs=iso.intens, exp=ft, tol=tol,
                                                                 err=iso.int_err)))
-        if not off_truth and not mech.get('astep_px_in_geometry'):
+        if not off_truth and not mech.get('astep_px_in_geometry') and not spec.get('no_recovery'):
             mode = mech.get('integrmode', 'bilinear')
             sfx = '_nearest' if mode == 'nearest_neighbor' else ''
             if free['c']:
@@ -212,6 +215,9 @@ def _recovery(case, spec, isos, mech, m):
                 case.dev('abs_dev_pa_deg' + sfx, math.degrees(dp))
             case.dev('rel_dev_intens' + sfx, abs(iso.intens / ft - 1.0))
     case.note('isophotes_well_sampled', n)
+    if spec.get('no_recovery'):
+        case.note('recovery_not_judged_control_keywords', 1)
+        return 0
     if off_truth:
         # a parameter pinned away from the truth biases the free ones: only intensity-free structure is judged
         case.note('recovery_not_judged_fixed_off_truth', 1)
@@ -238,6 +244,8 @@ def _fixed_exact(case, spec, isos, init, mech):
     for iso in isos:
         central = iso.sma == 0
         n += 1
+        if iso.stop_code in (4, 5):
+            case.note('isophotes_checked_fixed_stop_code_4_5', 1)
         if fix['fix_center']:
             if iso.x0 != init['x0'] and bad['x0'] is None:
                 bad['x0'] = dict(sma=iso.sma, obs=iso.x0, exp=init['x0'], stop_code=iso.stop_code)
@@ -482,7 +490,10 @@ def _structure(case, spec, isolist, init, mech):
             else:
                 case.close(nz[1:] / nz[:-1], np.full(len(nz) - 1, 1.0 + step), 'sma_growth_rule', rtol=1e-11,
                            mech=mech)
-    fin = all(np.all(np.isfinite(np.asarray(getattr(isolist, a), float))) for a in ('x0', 'y0', 'eps', 'pa', 'intens'))
+    fin = all(np.all(np.isfinite(np.asarray(getattr(isolist, a), float))) for a in ('x0', 'y0', 'eps', 'pa'))
+    # (an ellipse with no valid sample point - requested maxsma beyond the frame - has no intensity: docs silent)
+    fin = fin and all(np.isfinite(iso.intens) for iso in isolist if iso.ndata > 0)
+    case.note('isophotes_without_data', sum(1 for iso in isolist if iso.ndata == 0))
     case.check(fin, 'isolist_values_finite', mech)
     codes = [int(iso.stop_code) for iso in isolist]
     case.check(all(c in (0, 1, 2, 3, 4, 5) for c in codes), 'stop_code_documented', mech, codes=codes)
@@ -621,7 +632,7 @@ def _fit_case(case):
                        eps=round(spec['eps'], 4), pa_deg=round(math.degrees(spec['pa']), 4), law=spec['kind'],
                        n=spec['n'] and round(spec['n'], 2), scale=round(spec['scale'], 2),
                        init={k: round(v, 4) for k, v in init.items()}, fit_kw=kw, geometry_kw=gkw,
-                       fixed_at_truth=spec['fixed_at_truth'])
+                       fixed_at_truth=spec['fixed_at_truth'], regime=spec.get('regime'))
     case.digest = core.arr_digest(img, np.array([init[k] for k in ('x0', 'y0', 'sma', 'eps', 'pa')])) \
         + core.digest([kw, gkw])
     mech = dict(integrmode=mode, growth='linear' if spec['linear'] else 'geometric', fix=_fix_name(spec['fix']))
@@ -650,6 +661,16 @@ def _fit_case(case):
     m = min(spec['shape'])
 
     _structure(case, spec, isolist, init, mech)
+    nonc0 = [iso for iso in isolist if iso.sma > 0]
+    sma0_ = kw.get('sma0', init['sma'])
+    if nonc0 and nonc0[-1].stop_code == 4:
+        case.note('fits_outward_pass_ended_non_iterative', 1)
+        ninw = sum(1 for iso in nonc0 if iso.sma < sma0_ * (1 - 1e-9))
+        case.note('inward_isophotes_after_non_iterative_end', ninw)
+        if any(spec['fix'].values()):
+            case.note('inward_isophotes_after_non_iterative_end_under_fix', ninw)
+    if spec.get('regime'):
+        mech = dict(mech, regime=spec['regime'])
     nfix = _fixed_exact(case, spec, isolist, init, mech)
     nrec = _recovery(case, spec, isolist, mech, m)
     off_truth = any(spec['fix'].values()) and not spec['fixed_at_truth']
@@ -666,7 +687,8 @@ def _fit_case(case):
                                     (not off_truth and iso.stop_code == 0 and iso.sma >= 4.0),
                        astep=kw['step'], linear=spec['linear'],
                        other_smas=[o.sma for o in nonc if o is not iso] + [init['sma']])
-    _model(case, spec, img, isolist, mech, recover_ok=not off_truth and mode != 'nearest_neighbor')
+    _model(case, spec, img, isolist, mech,
+           recover_ok=not off_truth and mode != 'nearest_neighbor' and not spec.get('no_recovery'))
     case.check(_crc(img) == snap, 'image_unchanged', dict(mech, op='build_ellipse_model'))
     case.nontrivial = (nrec >= 5) or (nfix >= 5)
 
